@@ -887,6 +887,37 @@ func simRegistry(term, svc, model map[string]*ast.File) {
 	}
 	fmt.Fprintf(&out, "(* createDefaultHandle in source order: (registered id, ReplyBody declarer) *)\n")
 	fmt.Fprintf(&out, "Definition gen_reply_body_decl : list (N * N) := [%s].\n\n", strings.Join(rows, "; "))
+	// --- per-connection construction: GoJT808.Run calls createDefaultHandle() and newConnection(...) INSIDE the
+	// accept loop (after AcceptTCP), and every value of createDefaultHandle's map literal is built from a fresh
+	// composite literal &model.T{} (checked above: firstModelLit of every entry) - no handler object, channel or
+	// serial counter is shared between connections
+	perConn := false
+	if run := findFunc(svc, "GoJT808", "Run"); run != nil {
+		ast.Inspect(run.Body, func(n ast.Node) bool {
+			fs, ok := n.(*ast.ForStmt)
+			if !ok {
+				return true
+			}
+			seen := map[string]bool{}
+			ast.Inspect(fs.Body, func(m ast.Node) bool {
+				if c, ok := m.(*ast.CallExpr); ok {
+					switch f := c.Fun.(type) {
+					case *ast.SelectorExpr:
+						seen[f.Sel.Name] = true
+					case *ast.Ident:
+						seen[f.Name] = true
+					}
+				}
+				return true
+			})
+			if seen["AcceptTCP"] && seen["createDefaultHandle"] && seen["newConnection"] {
+				perConn = true
+			}
+			return true
+		})
+	}
+	fmt.Fprintf(&out, "(* GoJT808.Run: createDefaultHandle() and newConnection() are called inside the accept loop *)\n")
+	fmt.Fprintf(&out, "Definition gen_handles_per_connection : bool := %t.\n\n", perConn)
 	// --- the message ids connection.onActiveRespondEvent can hand to a waiting SendActiveMessage caller
 	// (the cases of its switch, in source order; the writer tries it only when hasComplete())
 	if rf := findFunc(svc, "connection", "onActiveRespondEvent"); rf != nil {
